@@ -19,7 +19,8 @@
 (*         k = time offset, or Named for a quoted period label             *)
 (*   num   s = the literal as written                                      *)
 (*   neg | paren | cond            (unary minus, explicit ( ), a if c else b) *)
-(*   bin | cmp  s = operator;   call  s = function, n = arity              *)
+(*   bin | cmp | bool  s = operator (bool: and / or);  not;                *)
+(*   call  s = function, n = arity                                         *)
 (***************************************************************************)
 EXTENDS Integers, Sequences, FiniteSets, TLC
 
@@ -28,8 +29,8 @@ CONSTANTS MaxStmts, MaxLeaves, MaxNodes, MaxNames,
           Idxs,       \* offsets a right-hand-side term may carry (may include Named)
           LhsIdxs,    \* offsets a left-hand side may carry
           Nums,       \* numeric literals (strings)
-          BinOps, CmpOps, Funcs1, Funcs2,
-          UseNeg, UseParen, UseCond
+          BinOps, CmpOps, BoolOps, Funcs1, Funcs2,
+          UseNeg, UseParen, UseCond, UseNot
 
 Named == 1000
 Tok(t, s, n, k) == [t |-> t, s |-> s, n |-> n, k |-> k]
@@ -97,9 +98,11 @@ DoPushVar == \E kd \in Kinds, nm \in 1..MaxNames, ix \in Idxs : PushVar(kd, nm, 
 DoPushNum == \E l \in Nums : PushNum(l)
 DoUnary   == \/ (UseNeg /\ Unary(Tok("neg", "", 0, 0)))
              \/ (UseParen /\ Unary(Tok("paren", "", 0, 0)))
+             \/ (UseNot /\ Unary(Tok("not", "", 0, 0)))
              \/ \E f \in Funcs1 : Unary(Tok("call", f, 1, 0))
 DoBinary  == \/ \E o \in BinOps : Binary(Tok("bin", o, 0, 0))
              \/ \E o \in CmpOps : Binary(Tok("cmp", o, 0, 0))
+             \/ \E o \in BoolOps : Binary(Tok("bool", o, 0, 0))
              \/ \E f \in Funcs2 : Binary(Tok("call", f, 2, 0))
 DoClose   == \E nm \in 1..MaxNames, ix \in LhsIdxs : CloseEq(nm, ix)
 
